@@ -436,6 +436,11 @@ Definition v2_check_stats (s : state) (app asset : Z) : outcome state :=
                  then lift s (set_auction_mapping (cs s) app asset (with_active f true))
                  else Ok s) (fun s1 =>
           if (x >=? cl_surplus_thr cl + cl_lot cl) && af_surplus f then
+            (* SurplusTokenAmount returns sdk.Coin{} when CollectorAssetId / SecondaryAssetId name no asset
+               (both are 0 in a record first written by WasmUpdateCollectorLookupTable):
+               GetAmountFromCollector then calls IsNegative on a nil Int *)
+            if negb (has_asset (cs s1) (cl_asset cl) && has_asset (cs s1) (cl_secondary cl)) then Panic
+            else
             obind (lift s1 (get_amount_from_collector (cs s1) app asset (cl_lot cl))) (fun s2 =>
             lift s2 (set_auction_mapping (cs s2) app asset (with_active f true)))
           else Ok s1)
